@@ -49,7 +49,7 @@ let canon_doc (n : node) : t =
   go (sexp_of_node n)
 
 let final_sexp = function
-  | Done d -> L [A "done"; canon_doc d]
+  | MDone d -> L [A "done"; canon_doc d]
   | Failed (d, e) -> L [A "failed"; family e; canon_doc d]
 
 let fmt_of_sym = function
